@@ -78,6 +78,9 @@ class Builder:
         if ckey in self.classes:
             return self.classes[ckey]
         base = Source if d['k'] == 'source' else Transform
+        if d['k'] == 'split':
+            from connectome import Split
+            base = Split
         ns = MultiDict()
         ns['__module__'] = 'cv_generated'
         ns['__qualname__'] = key
@@ -94,12 +97,21 @@ class Builder:
             from connectome import meta
             fname = f'{key}.ids' + ('' if not getattr(self, 'ids_by_value', True) else '[' + ','.join(map(str, ids)) + ']')
             self.world.consts[fname] = ids
-            ns['ids'] = meta(self.world.fn(fname, params=[]))
+            idsf = self.world.fn(fname, params=[])
+            if d.get('ids_impure'):
+                # an id listing that may change between calls (a directory scan)
+                from connectome import impure as _impure
+                idsf = _impure(idsf)
+                self.ids_fn = getattr(self, 'ids_fn', {})
+                self.ids_fn[key] = fname
+            ns['ids'] = meta(idsf)
         else:
             if d.get('inherit') is not None:
                 ns['__inherit__'] = d['inherit'] if isinstance(d['inherit'], bool) else tuple(d['inherit'])
             if d.get('exclude') is not None:
                 ns['__exclude__'] = tuple(d['exclude'])
+        if d['k'] == 'split':
+            ns['__split__'] = self.fn(d['split'], key, '__split__')
         for name, spec in d.get('params', {}).items():
             ns[name] = self.decorate(self.fn(spec, key, name), spec)
         for name, spec in d.get('fields', {}).items():
@@ -114,7 +126,7 @@ class Builder:
     def layer(self, d):
         c = self.c
         k = d['k']
-        if k in ('source', 'transform'):
+        if k in ('source', 'transform', 'split'):
             cls = self.make_class(d)
             return cls(**{a: _to_py(v) for a, v in d.get('cargs', {}).items()})
         if k == 'apply':
@@ -206,6 +218,18 @@ def observe(builder, layer, names, inputs=None, tuples=(), hashes=False):
     except Exception as e:
         out['dir_err'] = exc_name(e)
         out['dir_err_msg'] = str(e)
+        # an unusable pipeline stays unusable: asking again (a swallowed first error, tab completion) raises again
+        try:
+            again = sorted(dir(layer))
+            out['dir_second'] = again
+        except Exception as e2:
+            out['dir_second'] = 'ERR ' + exc_name(e2)
+        for name in list(names)[:3]:
+            try:
+                layer._compile(name)
+                out.setdefault('compiled_after_error', []).append(name)
+            except Exception:
+                pass
     fields = {}
     for name in list(names) + [tuple(t) for t in tuples]:
         key = name if isinstance(name, str) else '(' + ','.join(name) + ')'
